@@ -92,16 +92,8 @@ open Wellen.Bits Wellen.Store Wellen.Spec in
 /-- the faithful model: run the encoder(s), finish, load every signal -/
 def modelStore (types : List SigType) (ops : List Op) : Option String := do
   let c := driverCodec
-  let mut done : List Enc := []
-  let mut e := newEnc types
-  for op in ops do
-    match op with
-    | .split => done := e :: done; e := newEnc types
-    | op => e ← stepOp c e op
-  let encs := (e :: done).reverse
-  let mut first := encs.headD e
-  for other in encs.drop 1 do
-    first ← append c first other
+  -- one encoder per segment between the splits, appended in order (`Spec.runSegs`: the function the refinement theorem is about)
+  let first ← runSegs c types ops
   let (r, tt) := finish c first
   let mut out := "tt=" ++ natListStr tt
   let mut i := 0
